@@ -571,6 +571,12 @@ def delegates_preserve(ctx, cr):
                     bad.append("%s is rebuilt with name %s and status %s instead of the incoming record's" % (name, nm[:30], stt[:30]))
                     continue
             bad.append("hands on %s" % ai.fmt_val(v, cr)[:80])
+        # a tracer that rebuilds RuleCheck records does so only for the record of the rule it stands for: the incoming RuleCheck must
+        # also be handed on untouched on some path (the name comparison), otherwise every nested rule check gets the call site's message
+        rebuilt = [v for v in seen if v[0] == "enum" and v[1] == RT and v[3] and v[3][0][0] == "enum"]
+        untouched = [v for v in seen if v[0] == "enum" and v[1] == RT and v[3] and v[3][0][0] == "sym" and vn[v[2]] == "RuleCheck"]
+        if rebuilt and not untouched:
+            bad.append("every RuleCheck passing through is rebuilt (no path hands the incoming record on unchanged): nested rule checks lose their own message to the call site's")
         ctx.ob(rule, "%s:delegate-preserves:%s" % (rule, k.split(" as ")[0].lstrip("<")), not bad, "; ".join(sorted(set(bad))[:2]) or "%d delegations, record (or its name and status) unchanged" % len(seen), fn=f,
                sample={"tracer": k, "delegations": len(seen)} if "ResolvedParameterContext" in k else None)
     if n_del < 4:
